@@ -46,7 +46,10 @@ def cloud_strategy(draw, tier):
             # the cloud may sit far from the origin (stack coordinates): multiples of 1024, exact in float32
             "far": draw(st.sampled_from([None, None, None, [8192, -16384, 4096], [-20480, 1024, 12288]])),
             # the transform object was used on a small cloud before; the limit given through the deprecated keyword
-            "reused": draw(st.integers(0, 3)) == 0, "legacy_kw": draw(st.integers(0, 3)) == 0}
+            "reused": draw(st.integers(0, 3)) == 0, "legacy_kw": draw(st.integers(0, 3)) == 0,
+            # the same object was just used on the same cloud with another soma; the column names handed over per call
+            # (deprecated spelling of the constructor option)
+            "other_soma_first": draw(st.integers(0, 3)) == 0, "names_per_call": draw(st.integers(0, 4)) == 0}
 
 
 def _points(case):
@@ -172,18 +175,27 @@ def run_cloud(case, ctx):
         small = np.array([[0.0, 0.0, 0.0], [1.0, 0.25, 0.0], [0.0, 2.0, 0.5], [3.0, 3.0, 3.0]])
         ctx.lib(f"{which}/build", tr, small)
         ctx.cls("transform-object-reused")
+    if case.get("other_soma_first") and soma is not None and not is_int:
+        ctx.lib(f"{which}/build", tr, P.copy(), np.asarray(soma, dtype=np.float64) + np.array([7.5, -3.25, 11.0]))
+        ctx.cls("same-object-same-cloud-another-soma-before")
     snapshot = P.copy()
     args = (P,) if soma is None else (P, soma)
+    kwargs = {}
+    if case.get("names_per_call"):
+        from swcgeom.core.swc_utils import SWCNames
+
+        kwargs = {"names": SWCNames()}
+        ctx.cls("column-names-given-per-call")
     if is_int:
         # the signature annotates a floating array: a loud refusal of integer coordinates is not judged, a silently
         # different tree is
         try:
-            out = tr(*args)
+            out = tr(*args, **kwargs)
         except Exception:  # noqa
             ctx.ambiguous("integer-cloud-refused")
             return
     else:
-        out = ctx.lib(f"{which}/build", lambda: tr(*args))
+        out = ctx.lib(f"{which}/build", lambda: tr(*args, **kwargs))
     ctx.check(np.array_equal(P, snapshot), f"{which}/input-unchanged", "the point array was modified")
 
     ids, pids = [int(v) for v in out.id()], [int(v) for v in out.pid()]
@@ -261,5 +273,6 @@ SUBCHECKS = [
         required={"which:mst": 200, "which:cuntz": 400, "limit:-1": 200, "limit:1": 100, "limit:2": 200, "limit:3": 100,
                   "soma-given": 300, "first-point-is-root": 200, "bf-visible": 150, "limit-bites": 100, "plain-mst": 40,
                   "bf-clipped": 50, "sort": 300, "nosort": 300, "dtype:float32": 200, "dtype:int32": 200, "dtype:int64": 200, "far-from-origin": 300,
-                  "transform-object-reused": 300, "limit-through-deprecated-keyword": 60}),
+                  "transform-object-reused": 300, "limit-through-deprecated-keyword": 60,
+                  "same-object-same-cloud-another-soma-before": 150, "column-names-given-per-call": 300}),
 ]
